@@ -31,7 +31,8 @@ def step_text(st):
     has = st["v"] != ["UNSET"]
     if op == "asg":
         return {"plain": "%s=%s" % (n, v), "arith": "(( %s = %s ))" % (n, v), "read": "read %s <<< %s" % (n, v), "printfv": "printf -v %s %%s %s" % (n, v), "for": "for %s in %s; do :; done" % (n, v),
-                "defasg": ": ${%s:=%s}" % (n, v), "append": "%s+=%s" % (n, v), "elem": "%s[0]=%s" % (n, v)}[w]
+                "defasg": ": ${%s:=%s}" % (n, v), "append": "%s+=%s" % (n, v), "elem": "%s[0]=%s" % (n, v),
+                "getopts": "OPTIND=1; getopts %s %s -%s" % (v, n, v), "mapfile": "mapfile -t %s <<< %s" % (n, v)}[w]
     if op == "local":
         flag = {"": "", "i": "-i ", "u": "-u ", "l": "-l ", "x": "-x ", "r": "-r "}[w]
         return "local %s%s%s" % (flag, n, ("=" + v) if has else "")
